@@ -457,13 +457,17 @@ def run_case_process(case):
     with tempfile.NamedTemporaryFile("w", suffix=".json", prefix="vp_c14_", delete=False) as f:
         json.dump(case, f)
         path = f.name
+    from ..procs import run_group
+
     try:
-        p = subprocess.run([sys.executable, "-m", "vp.props.c14_child", path], stdout=subprocess.PIPE, stderr=subprocess.PIPE, text=True, timeout=100)
+        rc, stdout, stderr = run_group([sys.executable, "-m", "vp.props.c14_child", path], 100)
     finally:
         os.unlink(path)
-    if "@@RESULT@@" not in p.stdout:
-        raise RuntimeError("process-backend child failed: " + p.stderr[-1500:])
-    o = json.loads(p.stdout.split("@@RESULT@@")[1].strip())
+    if rc is None:
+        raise subprocess.TimeoutExpired("vp.props.c14_child", 100)
+    if "@@RESULT@@" not in stdout:
+        raise RuntimeError("process-backend child failed: " + stderr[-1500:])
+    o = json.loads(stdout.split("@@RESULT@@")[1].strip())
     return o["njobs"], o["trace"], o["table"], o["late"], o.get("extra", {})
 
 
